@@ -366,6 +366,7 @@ var c01Templates = []tmpl{
 	{"in-operands-evaluated-left-to-right", `t := func(x) { emit(x); return x }; u := func(x) { emit(x); return [1, 2] }; r := t(a) in u(5); q := t(b) not in u(6); r == !q || true`, func(a, b, c, n int64) tOut {
 		return tOut{val: rvBool(true), emits: []int64{a, 5, b, 6}, checkEmits: true}
 	}},
+	{"nil-default-counts-as-a-default", `f := func(x, y=nil) { if y == nil { return x }; return 0 }; f(a)`, func(a, b, c, n int64) tOut { return outInt(a) }},
 	{"error-raised", `error("boom"); a`, func(a, b, c, n int64) tOut { return outErr() }},
 	{"division-by-zero-error", `a / b`, func(a, b, c, n int64) tOut {
 		if b == 0 {
